@@ -21,6 +21,13 @@ def c11_history(rng, ntx_fault=4, grow=False):
     h.emit("reopen")
     for i in range(ntx_fault + 3):
         t = h.begin(True)
+        if i in (1, 4):
+            # a writable transaction that changes nothing (the usual get_or_create start-up pattern)
+            h.bucket("goc", t, 0, gen.hx("A"))
+            h.emit("commit %d" % t)
+            h.emit("snap")
+            h.emit("check")
+            continue
         ha = h.bucket("getb", t, 0, gen.hx(rng.choice("AB")))
         for _ in range(rng.randrange(1, 8)):
             x = rng.random()
